@@ -35,6 +35,10 @@ CHECKS = {
  "C10": dict(tech="TLA+ L1 language machine: scope model (known frames, ambiguity, arity) in Prql.tla; every ill-formed behaviour of PrqlMC replayed; acceptance of an ill-formed program rejected by TLC (PrqlTrace)",
     text="every program the bounded model marks ill-formed (reference to a dropped column, ambiguous bare name after join, arity mismatch) must make prqlc::compile return Err; every well-formed one must compile",
     ref="DESIGN.md section 4 C10"),
+ "C12": dict(tech="TLA+ totality monitor (Totality.tla: every entry point returns ok|err; growth per doubling bounded) validating recorded calls (TotalityTrace); the input space is the bounded spaces of the other specifications (Lexer alphabet, token sequences, L1 programs with scope-breaking edits, single-invariant corruptions of RQ/PL documents = negative space of Rq.tla, boundary and growth families)",
+    text="bounded-exhaustive and structured exploration: every string up to a length over the lexical alphabet, every token sequence up to a length, every program of the bounded language model incl. ill-formed ones, boundary families (multi-byte text at every byte offset, numbers around 2^31/2^63/2^64 in every numeric position), RQ and PL documents with one invariant broken, and nest/chain families of doubling size, each through tokens, parse, format, JSON round trips, resolve, SQL generation for the dialects, and compile, in child processes so that aborts and hangs are observed",
+    ref="DESIGN.md section 4 C12", cat="exploration",
+    note="exploration, not proof: totality over arbitrary byte strings is explored on bounded and structured families; coverage-guided fuzzing is a different technique and is not used; polynomial time is approximated by a per-doubling growth bound"),
  "C13": dict(tech="TLA+ source position machine (Spans.tla: character/byte offsets, line/column, span well-formedness, quoted line) with its laws model-checked over all short sources with multi-byte characters (SpansMC, which also enumerates the case space); every ErrorMessage returned for the generated erroneous sources validated by TLC (SpansTrace)",
     text="the case space error template (lexical, syntactic, name resolution, type, argument, SQL generation) x padding (ASCII, 2-, 3-, 4-byte text) x place (comment / string / identifier before, after, earlier lines) x file layout (single file, project root, module file, path-suffix project) is enumerated by TLC and compiled; each message must have a non-empty reason, a span inside the named file, a location equal to the position of that span, a display quoting that line, and some located message must be at the planted offending token",
     ref="DESIGN.md section 4 C13", note="trusted: TLC; pv's recording of ErrorMessages and its reading of the gutter lines of the rendered message; spans are taken to be character offsets as ErrorMessage documents"),
